@@ -109,7 +109,8 @@ def homomorphism(ctx):
     fn = bm.fn("BoundaryOperator.strong_form")
     defs = roles.Defs(fn)
     got = roles.canon(_ret(fn), defs, commutative_mult=False).replace(" ", "")
-    okm = any(isinstance(s, ast.Assign) and unparse(s.targets[0]) == "self._range_map" and unparse(s.value).replace(" ", "") == "get_inverse_mass_matrix(self.range,self.dual_to_range)" for s in ast.walk(fn))
+    want_map = roles.expect("get_inverse_mass_matrix(self.range, self.dual_to_range)", defs, fn.body[-1].lineno, lv=False)
+    okm = any(s.target == "self._range_map" and s.value == want_map for s in roles.stores(fn.body, defs, lv=False))
     r.check(got == "(self._range_map*self.weak_form())" and okm, "BoundaryOperator.strong_form", BO, "BoundaryOperator.strong_form", fn.lineno, "strong form " + got,
             "strong form is `%s` with range map from (range, dual_to_range): %s" % (got, okm))
     # spaces of the combinators
@@ -122,8 +123,11 @@ def homomorphism(ctx):
     # operator applied to a grid function yields the projections of the image
     fn = bm.fn("BoundaryOperator.__mul__")
     gcalls = [c for c in calls_in(fn) if unparse(c.func) == "GridFunction"]
-    okg = len(gcalls) == 1 and unparse(gcalls[0].args[0]) == "self.range" and {k.arg: unparse(k.value).replace(" ", "") for k in gcalls[0].keywords} == {
-        "projections": "self.weak_form()*other.coefficients", "dual_space": "self.dual_to_range"}
+    mdefs = roles.Defs(fn)
+    other = arg_names(fn)[1]
+    okg = len(gcalls) == 1 and len(gcalls[0].args) == 1 and roles.canon(gcalls[0].args[0], mdefs) == "self.range" and {
+        k.arg: roles.canon(k.value, mdefs, commutative_mult=False).replace(" ", "") for k in gcalls[0].keywords} == {
+        "projections": "(self.weak_form()*%s.coefficients)" % other, "dual_space": "self.dual_to_range"}
     r.check(okg, "BoundaryOperator * GridFunction", BO, "BoundaryOperator.__mul__", fn.lineno, "operator times grid function",
             "A * f is not GridFunction(A.range, projections=A.weak_form() * f.coefficients, dual_space=A.dual_to_range)")
     # potential operators
@@ -138,7 +142,7 @@ def homomorphism(ctx):
             ok, msg = False, str(e)
         r.check(ok, cname + ".evaluate", PO, cname + ".evaluate", fn.lineno, cname + " evaluate term", msg)
     fn = pm.fn("PotentialOperator.evaluate")
-    r.check(unparse(_ret(fn)).replace(" ", "") == "self._evaluator.evaluate(grid_fun.coefficients)", "PotentialOperator.evaluate", PO, "PotentialOperator.evaluate", fn.lineno,
+    r.check(roles.canon(_ret(fn), roles.Defs(fn)).replace(" ", "") == "self._evaluator.evaluate(%s.coefficients)" % arg_names(fn)[1], "PotentialOperator.evaluate", PO, "PotentialOperator.evaluate", fn.lineno,
             "potential evaluate " + unparse(_ret(fn)), "a potential operator is not evaluated on the coefficients of the grid function")
 
 
